@@ -261,9 +261,12 @@ def runTree (coll : String) (op : Toks) (st : St Int) (inj : Option Nat) : Strin
     | none => "BAD"
   | _, _ => "BAD"
 
-def runList (op : Toks) (l : List E) : String :=
-  let fault := answer "1" "FAULT" "-" ""
-  let ok (out : String) (l' : List E) := answer "1" out (showL l') ""
+def runList (op : Toks) (l : List E) (inj : Option Nat := none) : String :=
+  let wf := if sortedCheck l then "1" else "0:sorted"
+  -- every callback of the plain lists is made by the binary search, before any mutation
+  if inj.isSome then answer wf "panic" (showL l) "" else
+  let fault := answer wf "FAULT" "-" ""
+  let ok (out : String) (l' : List E) := answer wf out (showL l') ""
   match op with
   | ["new", _] => ok "ok" LSt.new
   | ["insert", k, v] => match tokInt k, tokInt v with
@@ -310,8 +313,27 @@ def runList (op : Toks) (l : List E) : String :=
     | none => "BAD"
   | _ => "BAD"
 
-def runKList (op : Toks) (s : KL Int) : String :=
-  let ok (out : String) (s' : KL Int) := answer "1" out (showK s') ""
+def klInj (wf : String) (states : List (KL Int) × KL Int) (k : Nat) : String :=
+  match states.1[k]? with
+  | some st => answer wf "panic" (showK st) s!"n>={states.1.length}"
+  | none => answer wf "panic" (showK states.2) s!"n>={states.1.length}"
+
+def runKList (op : Toks) (s : KL Int) (inj : Option Nat := none) : String :=
+  let wf := if sortedCheck s.buf && s.invCheck then "1" else s!"0:sorted={sortedCheck s.buf},minexp={s.invCheck}"
+  if let some k := inj then
+    match op with
+    | ["insert", kk, x, v, t] => match tokInt kk, tokInt x, tokInt v, tokInt t with
+      | some kk, some x, some v, some t => klInj wf (s.insertStates ⟨kk, x, v⟩ t) k
+      | _, _, _, _ => "BAD"
+    | ["export", t] => match tokInt t with
+      | some t => klInj wf (s.queryStates t) k
+      | none => "BAD"
+    | [_, t, _] => match tokInt t with
+      | some t => klInj wf (s.queryStates t) k
+      | none => "BAD"
+    | _ => "BAD"
+  else
+  let ok (out : String) (s' : KL Int) := answer wf out (showK s') ""
   match op with
   | ["new", mx] => match tokInt mx with
     | some mx => ok "ok" (KL.new mx)
@@ -419,13 +441,13 @@ def process (line : String) : String :=
       match op with
       | ["new", _] => runList op []
       | _ => match parseL stToks with
-        | some l => runList op l
+        | some l => runList op l inj
         | none => "BADSTATE"
     else if coll == "klist" then
       match op with
       | ["new", _] => runKList op (KL.new 0)
       | _ => match parseK stToks with
-        | some s => runKList op s
+        | some s => runKList op s inj
         | none => "BADSTATE"
     else if coll == "seg" then
       match op with
